@@ -476,6 +476,36 @@ fn method_elements(ok: &mut Vec<Snippet>) {
     }
 }
 
+// `xs[e]` reads the element that is at position e when the read happens, also
+// when evaluating e itself writes to xs (the list is a reference, not a copy
+// taken before the index is computed). Oracle: the reference interpreter.
+fn effectful_index_cases(ctx: &Ctx) -> Vec<(Case, bool)> {
+    let mut out = vec![];
+    if !crate::backend::worker_available() {
+        return out;
+    }
+    let pre = "slots := [0, 0, 0, 0]\nnext := 0\nfn push(v) {\n    slots[next] = v\n    next += 1\n    return next - 1\n}\nfn bump(i) {\n    slots[i] += 100\n    return i\n}\nfn swap01() {\n    [slots[0], slots[1]] = [slots[1], slots[0]]\n    return 0\n}\ns := \"abcd\"\nfn cut() {\n    s = \"wxyz\"\n    return 1\n}\n";
+    let bodies = [
+        "print(slots[push(11)])\nprint(slots[push(22)])\nprint(slots)", "print(slots[bump(2)])\nprint(slots[bump(2) + 0])\nprint(slots)", "slots[0] = 5\nprint(slots[swap01()])\nprint(slots)",
+        "print(slots[push(7)] + slots[push(8)])\nprint(slots)", "print(slots[push(1):])\nprint(slots[:push(2) + 1])", "print([slots[push(3)], slots[push(4)]])",
+        "print(s[cut()])\nprint(s)", "slots[push(9)] += 1\nprint(slots)", "slots[push(5)] = slots[push(6)]\nprint(slots)", "x := slots[push(40) + push(41) - 1]\nprint(x)\nprint(slots)",
+        "xs := [[1, 2], [3, 4]]\nfn flip() {\n    xs[0][0] = 9\n    return 0\n}\nprint(xs[flip()][0])\nprint(xs[0][flip()])",
+    ];
+    for b in bodies {
+        let src = format!("{pre}{b}\n");
+        let prog = match crate::util::model_from_source(&src) { Ok(p) => p, Err(_) => { ctx.exclude("effectful-index program not readable"); continue; } };
+        let rr = sdmodel::interp::run(&prog);
+        let e = match &rr.outcome {
+            sdmodel::interp::Outcome::Ok => Expect::ok(rr.out.clone()),
+            sdmodel::interp::Outcome::Err(_) => Expect::err(rr.out.clone()),
+            sdmodel::interp::Outcome::Discard(w) => { ctx.exclude(w); continue; },
+        };
+        ctx.label("index expression that writes to the indexed list");
+        out.push((Case{property: "C11".into(), kind: "effectful_index".into(), srcs: vec![src.into_bytes()], pred: Pred::Expect(e), note: b.lines().next().unwrap_or("").to_string()}, true));
+    }
+    out
+}
+
 pub fn run(ctx: &Ctx) {
     ctx.set_rule("every list of length 0..N (distinct ints; one family with container elements) and every string from a pool incl. 2/3/4-byte characters x every index in [-2, len+2] x every bound pair in ([-2, len+2] + omitted)^2, reads, xs[i] = v, xs[a:b] = ys with |ys| in {b-a-1, b-a, b-a+1} as list and string, concatenation of all pairs, all 7 non-integer kinds as index / bound, lists of bound methods through every building operation, random histories (2..11 reads, element and range writes from literals / range expressions / strings / own slices, appends) on lists of 0..300 elements followed on a Vec; oracle: the sequence laws written out in the harness. Non-trivial = an index or bound on an edge (0, len-1, len, a = b, omitted, -1, len+1) or a multi-byte string; distinct = distinct source texts");
     ctx.replay_corpus(None);
@@ -520,6 +550,7 @@ pub fn run(ctx: &Ctx) {
     ctx.mark_exhaustive(&format!("lists of length 0..={maxlen} and {} strings x all indices / bound pairs / range assignments", strs.len()));
     judge_snippets(ctx, "sequence", &ok, 60);
     ctx.judge_all(bad, Via::Cli, None);
+    ctx.judge_all(effectful_index_cases(ctx), Via::Cli, None);
     let n = ctx.n(20_000, 4_000_000);
     let via = if ctx.tier == Tier::Quick { Via::Cli } else { Via::Fast };
     ctx.proptest_tapes("histories", n, 200, via, None, |t| history_case(t, ctx));
